@@ -58,6 +58,17 @@ func vfhC14CentroidWeights() {
 	total := 48 - ah
 	want := weightedCentroid(shell, 48, total).Add(weightedCentroid(hole, -ah, total))
 	vfAssert(vfAnd(got.X == want.X, got.Y == want.Y), "Centroid = shell centroid * |shell|/area - hole centroid * |hole|/area")
+	// a MultiPolygon weighs each member by its net area (shell minus holes)
+	far := NewPolygon([]LineString{NewLineStringXY(20, 0, 23, 0, 23, 2, 20, 2, 20, 0)}) // area 6
+	mpoly := NewMultiPolygon([]Polygon{poly, far})
+	mc, okm := mpoly.Centroid().XY()
+	c0, ok0 := poly.Centroid().XY()
+	c1, ok1 := far.Centroid().XY()
+	vfAssert(okm && ok0 && ok1, "non-empty")
+	mtot := 0 + (48 - ah) + 6
+	var mwant XY
+	mwant = mwant.Add(c0.Scale((48 - ah) / mtot)).Add(c1.Scale(6 / mtot))
+	vfAssert(vfAnd(mc.X == mwant.X, mc.Y == mwant.Y), "MultiPolygon.Centroid = member centroids weighted by NET area / total")
 	// the same polygon written the other way round has the same weights
 	rev, ok := poly.Reverse().Centroid().XY()
 	wantRev := weightedCentroid(shell.Reverse(), 48, total).Add(weightedCentroid(hole.Reverse(), -ah, total))
